@@ -15,8 +15,8 @@ PROP = {'engine': 'tun',
  'assumptions': ['message ids distinct per source among deliverable packets (fewer than 2^32 Messages of one source in flight): explicit hypothesis of '
                  '`safety`',
                  'no allocation failure, no partial datagram writes',
-                 "liveness: every queued Message within the receiver's size limit (see known finding C12-oversize), receiver MTU >= sender MTU, same magic, "
-                 'source not excluded',
+                 'liveness: at most 2^32 Messages per queue (ids distinct), receiver MTU >= sender MTU, same magic, source not excluded; Messages over the '
+                 "receiver's size limit are dropped, the others delivered (finding C12-oversize fixed by 79d1d2b)",
                  'SetAllowMiscIncomingData(false) for the safety theorems (misc data is delivered verbatim by design)'],
  'rule': 'real sender and receiver gateway objects joined by a scripted in-memory packet transport; every op (configure, send Messages, deliver log packet i '
          'as from address a, forged packet, whole log in order) runs on the real gateways and on the Lean model; packets written and Messages delivered must '
@@ -30,13 +30,15 @@ TEXT = {'design_ref': 'DESIGN.md section 4, C12',
               'correspondence of model and real gateway objects under scripted loss/duplication/reordering',
  'text': 'Proved in Lean for the model of PacketTunnelIOGateway: for EVERY list of datagrams whose accepted fragments stem from sent Messages with per-source '
          'distinct ids (any loss, duplication, reordering), every reassembly buffer is a prefix of one sent Message and every buffer handed to the receiver '
-         'equals a Message sent by that source; states of different sources do not interact; a perfect transport delivers every queued Message exactly once '
-         'and in order for every MTU >= header+1 and every start value of the 32-bit id counter (wrap-around included); the mini tunnel analogues hold for an '
-         'arbitrary lawful codec.  The model is tied to the C++ code by running real sender/receiver gateway objects and the model on the same op streams '
-         '(packets written and Messages delivered must be identical), with exhaustive delivery sequences for logs of up to 6 packets, forged packets, > 256 '
-         'sources, and a direct membership/equality oracle on the real gateways.',
+         'equals a Message sent by that source; states of different sources do not interact; a perfect transport delivers exactly the queued Messages within '
+         "the receiver's size limit, each once and in order (larger ones are dropped without affecting their neighbours), for every MTU >= header+1 and every "
+         'start value of the 32-bit id counter (wrap-around included); the mini tunnel analogues hold for an arbitrary lawful codec.  The model is tied to the '
+         'C++ code by running real sender/receiver gateway objects and the model on the same op streams (packets written and Messages delivered must be '
+         'identical), with exhaustive delivery sequences for logs of up to 6 packets, forged packets, > 256 sources, and a direct membership/equality oracle '
+         'on the real gateways.',
  'note': 'Safety needs the stated hypothesis that message ids are distinct per source among deliverable packets (unbounded delay defeats any finite id).  '
-         "Liveness is proved for queues in which every Message is within the receiver's size limit: on the unchanged tree a Message over "
-         'SetMaxIncomingMessageSize() makes the receiver discard the rest of that packet, which loses the following Message (known finding C12-oversize, '
-         'corpus/C12/tun-oversize-swallows-next.ops).  Not modelled: allocation failure, partial datagram writes, slave gateways (payload = '
-         'Message::Flatten).  Trusted: Lean kernel, statement file, correspondence harness (sampling), zlib law, constants measured on the compiled gateways.'}
+         'Liveness needs at most 2^32 Messages per queue (ids distinct).  Finding C12-oversize (a Message over SetMaxIncomingMessageSize() made the receiver '
+         'discard the rest of that packet and lose the following Message) was fixed in /repo by 79d1d2b; model, theorem and oracle follow the fixed code and '
+         'corpus/C12/tun-oversize-swallows-next.ops is the regression case.  Not modelled: allocation failure, partial datagram writes, slave gateways '
+         '(payload = Message::Flatten).  Trusted: Lean kernel, statement file, correspondence harness (sampling), zlib law, constants measured on the compiled '
+         'gateways.'}
